@@ -6,6 +6,9 @@
 #include <array>
 #include "btdmp.h"
 #include "icu.h"
+#include "ahbm.h"
+#include "dma.h"
+#include "interpreter.h"
 
 struct TeakraVerifAccess {
     // Btdmp
@@ -16,6 +19,19 @@ struct TeakraVerifAccess {
     static bool& BtEmpty(Teakra::Btdmp& b) { return b.transmit_empty; }
     static bool& BtFull(Teakra::Btdmp& b) { return b.transmit_full; }
     static std::queue<u16>& BtQueue(Teakra::Btdmp& b) { return b.transmit_queue; }
+    // Interpreter (private arithmetic / addressing helpers)
+    static void SetAccFlag(Teakra::Interpreter& i, u64 v) { i.SetAccFlag(v); }
+    static u64 SaturateAcc(Teakra::Interpreter& i, u64 v) { return i.SaturateAcc(v); }
+    static u64 ProductToBus40(Teakra::Interpreter& i, u16 unit) { return i.ProductToBus40(Px{unit}); }
+    static u16 RnAndModify(Teakra::Interpreter& i, unsigned unit, StepValue s, bool dmod) {
+        return i.RnAndModify(unit, s, dmod);
+    }
+    static u16 RnAddress(Teakra::Interpreter& i, unsigned unit, unsigned value) { return i.RnAddress(unit, value); }
+    static bool& Idle(Teakra::Interpreter& i) { return i.idle; }
+    // Dma / Ahbm
+    static auto& DmaChannel(Teakra::Dma& d, unsigned i) { return d.channels[i]; }
+    static std::function<void()>& DmaInterruptHandler(Teakra::Dma& d) { return d.interrupt_handler; }
+    static auto& AhbmChannel(Teakra::Ahbm& a, unsigned i) { return a.channels[i]; }
     // ICU
     static Teakra::ICU::IrqBits& IcuRequest(Teakra::ICU& i) { return i.request; }
     static std::array<Teakra::ICU::IrqBits, 3>& IcuEnabled(Teakra::ICU& i) { return i.enabled; }
